@@ -1,0 +1,8 @@
+//go:build !verif
+// +build !verif
+
+package stringclassifier
+
+const verifOn = false
+
+func verifEmit(string, ...interface{}) {}
